@@ -107,6 +107,8 @@ func runWorker(prop string, from, to int, out string) int {
 	return 0
 }
 
+var scratchDirs []string
+
 func runParent(prop string) int {
 	def := h.Checks[prop]
 	if def == nil {
@@ -126,6 +128,12 @@ func runParent(prop string) int {
 			}
 		}
 	}
+	// the parts' scratch directories live until Post has run (C23's Post re-judges the corpus the workers recorded there)
+	defer func() {
+		for _, d := range scratchDirs {
+			os.RemoveAll(d)
+		}
+	}()
 	for _, d := range parts {
 		runJobs(d, prop, t, seed, total)
 	}
@@ -163,7 +171,7 @@ func runJobs(def *h.CheckDef, prop, t string, seed int64, total *h.WorkerResult)
 			return
 		}
 	}
-	defer os.RemoveAll(tmp)
+	scratchDirs = append(scratchDirs, tmp)
 	self, _ := os.Executable()
 	if def.Binary != "" {
 		self = filepath.Join(filepath.Dir(self), def.Binary)
